@@ -154,7 +154,7 @@ def finishOp (a : Acc) (cellsRec : Array String) : Acc :=
 def handle (c : Case) : Verdict :=
   match c.find "cfg", c.find "init" with
   | some cf, some ini =>
-    let cfg : Cfg := { redesign := cf.getD 1 "" == "1", flaky := cf.getD 2 "" == "1", atomic := cf.getD 3 "" == "1", maxTries := 10 }
+    let cfg : Cfg := { redesign := cf.getD 1 "" == "1", flaky := cf.getD 2 "" == "1", atomic := cf.getD 3 "" == "1", maxTries := maxRetries }
     let uni := (cf.getD 4 "0").toNat!
     let c0 := cellsOfList ((ini.toList.drop 1).map parseCell)
     let init : Acc := { cfg := cfg, uni := uni, m := { cells := c0, failed := [] }, impl := c0 }
